@@ -235,7 +235,7 @@ func runK(c KCase, ev *pbt.Ev) error {
 }
 
 func TestProp_Keychain(t *testing.T) {
-	pbt.Run(t, pbt.Options{Prop: "C18", Name: "Keychain", Quick: 40000, Thorough: 2000000,
+	pbt.Run(t, pbt.Options{Prop: "C18", Name: "Keychain", Quick: 40000, Thorough: 1200000,
 		Rule: "rapid: 1-30 CRI requests PullImage(ref, auth) / RemoveImage(ref) over 11 spellings of 7 images (docker.io short names, tags, digests, ports), auth forms {user+password, identity token, base64 auth, empty, none} with server address {none, matching, scheme-less, other host, other port, docker.io alias, unparsable}, each secret unique, backend CRI call optionally failing; interleaved queries credentials(host, normalised ref) over 8 hosts; " +
 			"oracle: reference model (normalised reference -> secret of the most recent pull; removal deletes): the answer equals that secret iff no server address was given or its host equals the queried host (docker.io / registry-1.docker.io => index.docker.io), and is empty otherwise. non-trivial = a reference re-pulled with other credentials, or queried after its removal",
 	}, genK, runK)
@@ -306,7 +306,7 @@ func runKConc(c KCase, ev *pbt.Ev) error {
 }
 
 func TestProp_KeychainConcurrent(t *testing.T) {
-	pbt.Run(t, pbt.Options{Prop: "C18", Name: "KeychainConcurrent", Quick: 4000, Thorough: 200000,
+	pbt.Run(t, pbt.Options{Prop: "C18", Name: "KeychainConcurrent", Quick: 4000, Thorough: 120000,
 		Rule: "rapid: 2-6 goroutines x 1-15 pull/remove/query requests on one keychain; invariant valid for every linearisation: a non-empty answer for (host, ref) is a secret that some pull request supplied for exactly that reference. Run under the race detector. non-trivial = every case",
 	}, genKConc, runKConc)
 }
